@@ -53,7 +53,7 @@ def sock_stubs(frames: Optional[Callable] = None, extra=None) -> Dict[str, Calla
             return ret
         return f
 
-    for m in ("close", "shutdown", "settimeout", "ping", "send", "abort"):
+    for m in ("close", "shutdown", "settimeout", "ping", "pong", "send", "abort", "send_close"):
         st[f"appsock.{m}"] = eff(f"appsock.{m}")
     st["appsock.connect"] = eff("appsock.connect")
     if frames is not None:
